@@ -6,6 +6,7 @@ import (
 	"encoding/hex"
 	"encoding/xml"
 	"fmt"
+	"net/http"
 	"sort"
 	"strconv"
 	"strings"
@@ -200,6 +201,11 @@ func (x *Exec) Compare(op Op, exp Op, o *Observed) []string {
 			} else if known, ok := x.Vids[sym]; ok {
 				if known != got {
 					add("x-amz-version-id: got %q, want %q (%s)", got, known, sym)
+				} else if was, ok := x.VerMeta[got]; ok && o.Status == 200 && (op.S("op") == "GetObjectVersion" || op.S("op") == "HeadObjectVersion") {
+					// C05: a version is served with exactly its own metadata for as long as it exists
+					if now := metaSig(o.Header); now != was {
+						add("version %s (%s): metadata differs from what it was served with right after its upload: got [%s], was [%s]", sym, got, now, was)
+					}
 				}
 			} else {
 				for s2, v2 := range x.Vids {
@@ -208,6 +214,18 @@ func (x *Exec) Compare(op Op, exp Op, o *Observed) []string {
 					}
 				}
 				x.Vids[sym] = got
+				// a version id just issued to an upload: read the version's headers once (a read changes nothing)
+				// so that later reads by id can be held against them
+				if (op.S("op") == "PutObject" || op.S("op") == "PostObject") && o.Status == 200 && !x.Api && x.Addr == nil && x.Host == "" && x.ObjQuery == "" {
+					hr := newReq("HEAD", x.objPath(toBytes(op["b"]), x.Conc.Key(op.Key("k"))))
+					hr.Query.Set("versionId", got)
+					if ho := x.Serve(hr); ho != nil && ho.Status == 200 && ho.Panic == "" && !ho.Timeout {
+						if x.VerMeta == nil {
+							x.VerMeta = map[string]string{}
+						}
+						x.VerMeta[got] = metaSig(ho.Header)
+					}
+				}
 			}
 		}
 	}
@@ -612,4 +630,17 @@ func xmlKey(k string) string {
 		i += w
 	}
 	return sb.String()
+}
+
+// metaSig is the user metadata of a reply in a canonical spelling.
+func metaSig(h http.Header) string {
+	var out []string
+	for name, vs := range h {
+		// user metadata only: net/http adds a sniffed Content-Type to a GET that has none, not to a HEAD
+		if strings.HasPrefix(name, "X-Amz-Meta-") {
+			out = append(out, name+"="+strings.Join(vs, ","))
+		}
+	}
+	sort.Strings(out)
+	return strings.Join(out, "; ")
 }
